@@ -360,7 +360,7 @@ Proof.
   - (* StartWith *) destruct l; destruct (is_sub _); exact I.
   - (* SubscribePipe *)
     destruct (negb (is_sub (obs w o))); [exact I |].
-    destruct p as [s | v | l | a n | | | e | v | q | c | r | h | h | k | op src others]; cbn [snd]; auto; try (inv_simple I; fail).
+    destruct p as [s | v | l | a n | | | e | v | q | c | r | h | h | k | s | i | op src others]; cbn [snd]; auto; try (inv_simple I; fail).
     + (* PFromResult *) destruct r; exact I.
     + (* PHot *)
       destruct (sj_kind (subjs w h)); cbn [snd]; auto.
